@@ -1,11 +1,22 @@
 """Directory level of C10: `chunk-torch-spect-data-dir` on small well-formed directories.
 
 A case carries the whole input directory (utterances with frame-identifying features, alignments,
-token segments) and one configuration. `run_dir` writes it to a temporary directory, runs the
-command with `--num-workers 0` in-process, reads the output directory back and runs the library's
-own validator on it. The Lean driver (`c10.dir`) supplies the windows the policy prescribes for
-each utterance and the specified token chunk of every window.
+token segments), one slicing configuration and the COMMAND LINE it is run with: which of the three
+boolean flags (`--partial-tokens`, `--retain-token-boundaries`, `--quiet`) are given, the padding
+mode / constant, the file prefix / suffix, the three sub-directory names, the utterance format
+string (the command's default or one carrying the chunk index) and whether `ali/` and `ref/` exist.
+`run_dir` writes the directory to a temporary place, runs the command with `--num-workers 0`
+in-process, reads the output directory back and runs the library's own validator on it. The Lean
+driver (`c10.dir`) supplies the windows the policy prescribes for each utterance and the specified
+token chunk of every window; the frames a chunk must hold (source restricted to the window, padded
+as asked) are computed here from the frame-identifying feature values.
+
+Quick tier (`gen_quick`): every subset of the three boolean flags x policy x {valid-only, padded},
+a few rounds with window type, lobe, padding mode and directory drawn at random, every directory of
+the pool containing tokens that straddle window edges and windows that do not start at frame 0;
+plus every non-default file-layout option alone and all together. Thorough tier adds random runs.
 """
+import itertools
 import os
 import shutil
 import tempfile
@@ -13,122 +24,262 @@ import warnings
 
 F = 3
 PAD = -1.0
+POLICIES = ["fixed", "ali", "ref"]
+WTS = ["symmetric", "causal", "future"]
+DEFAULT_OPTS = {"prefix": None, "suffix": None, "feat_subdir": None, "ali_subdir": None, "ref_subdir": None,
+                "format": "idx", "has_ali": True, "has_ref": True}
+FORMATS = {"idx": "{utt_id}.{idx}.{start}.{end}", "default": None}
+ALT_OPTS = {"prefix": "p-", "suffix": ".tensor", "feat_subdir": "ff", "ali_subdir": "aa", "ref_subdir": "rr",
+            "format": "default", "has_ali": False, "has_ref": False}
+
+
+# ----------------------------------------------------------------------------- generators
+def gen_utt(rng, u, style):
+    """One utterance. style 'tiled': tokens tile the utterance (neighbouring segments, assorted
+    durations: some inside a window, some straddling window edges); 'random': arbitrary segments
+    incl. missing (-1) and empty ones; 'tiny': a single frame."""
+    if style == "tiny":
+        T = 1
+    elif style == "tiled":
+        T = rng.randint(6, 12)
+    else:
+        T = rng.randint(1, 9)
+    ali = [rng.randint(0, 2)]
+    for _ in range(T - 1):
+        ali.append(ali[-1] if rng.random() < 0.55 else rng.randint(0, 2))
+    ref = []
+    if style == "tiled":
+        t = rng.choice([0, 0, 1])
+        while t < T:
+            d = min(rng.randint(1, 4), T - t)
+            ref.append([rng.randint(0, 9), t, t + d])
+            t += d
+            if rng.random() < 0.1:
+                break
+    else:
+        for _ in range(rng.randint(0, 4)):
+            if rng.random() < 0.15:
+                ref.append([rng.randint(0, 9), -1, -1])
+            else:
+                s = rng.randint(0, T)
+                e = rng.randint(s, T)
+                ref.append([rng.randint(0, 9), s, e])
+        if rng.random() < 0.6:
+            ref.sort(key=lambda t: (t[1], t[2]))
+    uid = rng.choice([f"u{u}", f"spk{u}.a-{u}", f"{u}_x"])
+    return {"id": uid, "T": T, "ali": ali, "ref": ref}
+
+
+def gen_utts(rng, style=None):
+    style = style or rng.choice(["tiled", "random", "mixed"])
+    nutt = rng.randint(1, 4)
+    utts = []
+    for u in range(nutt):
+        st = style if style != "mixed" else rng.choice(["tiled", "random", "tiny"])
+        utts.append(gen_utt(rng, u, st))
+    return utts
+
+
+def mk_case(rng, policy, valid, partial, retain, quiet, utts, opts=None, wt=None, lobe=None):
+    pad_mode = None if valid else rng.choice(["constant", "constant", "replicate"])
+    # None = flag not given (the command's default 0.0); integral values only: alignments are integer tensors
+    pad_constant = rng.choice([None, PAD, 7.0]) if pad_mode == "constant" else None
+    o = dict(DEFAULT_OPTS)
+    o.update(opts or {})
+    if policy == "ali":
+        o["has_ali"] = True
+    if policy == "ref":
+        o["has_ref"] = True
+    return {"kind": "dir", "policy": policy, "wt": wt or rng.choice(WTS),
+            "lobe": rng.randint(0, 3) if lobe is None else lobe, "valid": valid, "pad_mode": pad_mode,
+            "pad_constant": pad_constant, "partial": partial, "retain": retain, "quiet": quiet, "opts": o,
+            "utts": utts}
+
+
+def gen_quick(rng, rounds=3):
+    pool = [gen_utts(rng, "tiled") for _ in range(3)] + [gen_utts(rng, "random") for _ in range(2)] + \
+           [gen_utts(rng, "mixed")]
+    # every subset of the boolean flags on the command line x policy x validity
+    for rnd in range(rounds):
+        for policy, valid, (p, r, q) in itertools.product(POLICIES, [True, False],
+                                                          itertools.product([False, True], repeat=3)):
+            utts = pool[0] if rnd == 0 else rng.choice(pool)
+            yield mk_case(rng, policy, valid, p, r, q, utts)
+    # file-layout options: each non-default value alone, then all together, for every policy that allows it
+    for k, v in ALT_OPTS.items():
+        for policy in POLICIES:
+            if (k == "has_ali" and policy == "ali") or (k == "has_ref" and policy == "ref"):
+                continue
+            yield mk_case(rng, policy, rng.random() < 0.5, rng.random() < 0.5, rng.random() < 0.5, True,
+                          rng.choice(pool), {k: v})
+    for policy in POLICIES:
+        for valid in (True, False):
+            yield mk_case(rng, policy, valid, rng.random() < 0.5, rng.random() < 0.5, rng.random() < 0.5,
+                          rng.choice(pool), dict(ALT_OPTS, has_ali=policy != "fixed", has_ref=policy != "fixed"))
 
 
 def gen_cases(rng, n):
     for i in range(n):
-        nutt = rng.randint(1, 4)
-        utts = []
-        for u in range(nutt):
-            T = rng.randint(1, 9)
-            ali = [rng.randint(0, 2)]
-            for _ in range(T - 1):
-                ali.append(ali[-1] if rng.random() < 0.55 else rng.randint(0, 2))
-            R = rng.randint(0, 4)
-            ref = []
-            for _ in range(R):
-                if rng.random() < 0.15:
-                    ref.append([rng.randint(0, 9), -1, -1])
-                else:
-                    s = rng.randint(0, T)
-                    e = rng.randint(s, T)
-                    ref.append([rng.randint(0, 9), s, e])
-            if rng.random() < 0.6:
-                ref.sort(key=lambda t: (t[1], t[2]))
-            utts.append({"id": f"u{u}", "T": T, "ali": ali, "ref": ref})
-        yield {"kind": "dir", "policy": rng.choice(["fixed", "ali", "ref"]),
-               "wt": rng.choice(["symmetric", "causal", "future"]), "lobe": rng.randint(0, 2),
-               "valid": rng.random() < 0.6, "partial": rng.random() < 0.35, "retain": rng.random() < 0.3,
-               "utts": utts}
+        opts = {k: v for k, v in ALT_OPTS.items() if rng.random() < 0.2}
+        yield mk_case(rng, rng.choice(POLICIES), rng.random() < 0.6, rng.random() < 0.4, rng.random() < 0.4,
+                      rng.random() < 0.7, gen_utts(rng), opts)
 
 
+# ----------------------------------------------------------------------------- running the command
 def feat_value(u, t, f):
     return float(1000 * (u + 1) + 10 * t + f)
 
 
+def norm(case):
+    """Cases written before the command-line options were part of a case (corpus, old replays)."""
+    c = dict(case)
+    c.setdefault("pad_mode", None if c["valid"] else "constant")
+    c.setdefault("pad_constant", None if c["valid"] else PAD)
+    c.setdefault("quiet", True)
+    o = dict(DEFAULT_OPTS)
+    o.update(c.get("opts") or {})
+    c["opts"] = o
+    return c
+
+
+def layout(case):
+    o = case["opts"]
+    return {"prefix": o["prefix"] or "", "suffix": o["suffix"] or ".pt", "feat": o["feat_subdir"] or "feat",
+            "ali": o["ali_subdir"] or "ali", "ref": o["ref_subdir"] or "ref"}
+
+
 def write_dir(case, root):
     import torch
-    for sub in ("feat", "ali", "ref"):
-        os.makedirs(os.path.join(root, sub))
+    lay = layout(case)
+    subs = ["feat"] + (["ali"] if case["opts"]["has_ali"] else []) + (["ref"] if case["opts"]["has_ref"] else [])
+    for sub in subs:
+        os.makedirs(os.path.join(root, lay[sub]))
     for ui, u in enumerate(case["utts"]):
         T = u["T"]
+        name = lay["prefix"] + u["id"] + lay["suffix"]
         feat = torch.tensor([[feat_value(ui, t, f) for f in range(F)] for t in range(T)],
                             dtype=torch.float).reshape(T, F)
-        torch.save(feat, os.path.join(root, "feat", u["id"] + ".pt"))
-        torch.save(torch.tensor(u["ali"], dtype=torch.long), os.path.join(root, "ali", u["id"] + ".pt"))
-        torch.save(torch.tensor(u["ref"], dtype=torch.long).reshape(len(u["ref"]), 3),
-                   os.path.join(root, "ref", u["id"] + ".pt"))
+        torch.save(feat, os.path.join(root, lay["feat"], name))
+        if "ali" in subs:
+            torch.save(torch.tensor(u["ali"], dtype=torch.long), os.path.join(root, lay["ali"], name))
+        if "ref" in subs:
+            torch.save(torch.tensor(u["ref"], dtype=torch.long).reshape(len(u["ref"]), 3),
+                       os.path.join(root, lay["ref"], name))
 
 
-def validate(root):
+def validate(root, case):
     from pydrobert.torch import data
+    lay = layout(case)
     try:
         with warnings.catch_warnings():
             warnings.simplefilter("ignore")
-            ds = data.SpectDataSet(root, suppress_alis=False, tokens_only=False)
+            ds = data.SpectDataSet(root, lay["prefix"], lay["suffix"], feat_subdir=lay["feat"],
+                                   ali_subdir=lay["ali"] if case["opts"]["has_ali"] else None,
+                                   ref_subdir=lay["ref"] if case["opts"]["has_ref"] else None,
+                                   suppress_alis=False, tokens_only=False)
             data.validate_spect_data_set(ds)
         return "ok"
     except Exception as e:
         return f"{type(e).__name__}: {str(e)[:160]}"
 
 
+def command_args(case, src, out):
+    o = case["opts"]
+    args = [src, out, "--policy", case["policy"], "--window-type", case["wt"], "--lobe-size", str(case["lobe"]),
+            "--num-workers", "0"]
+    if FORMATS[o["format"]] is not None:
+        args += ["--format-utt", FORMATS[o["format"]]]
+    if case["pad_mode"] is not None:
+        args += ["--pad-mode", case["pad_mode"]]
+    if case["pad_constant"] is not None:
+        args += ["--pad-constant", str(case["pad_constant"])]
+    for flag, key in (("--partial-tokens", "partial"), ("--retain-token-boundaries", "retain"), ("--quiet", "quiet")):
+        if case[key]:
+            args.append(flag)
+    for flag, key in (("--file-prefix", "prefix"), ("--file-suffix", "suffix"), ("--feat-subdir", "feat_subdir"),
+                      ("--ali-subdir", "ali_subdir"), ("--ref-subdir", "ref_subdir")):
+        if o[key] is not None:
+            args += [flag, o[key]]
+    return args
+
+
+def parse_name(case, name):
+    """(utt_id, idx or None, start, end) of an output file name; None if it does not have the asked form."""
+    lay = layout(case)
+    if not (name.startswith(lay["prefix"]) and name.endswith(lay["suffix"])):
+        return None
+    core = name[len(lay["prefix"]):len(name) - len(lay["suffix"])]
+    try:
+        if case["opts"]["format"] == "idx":
+            uid, idx, start, end = core.rsplit(".", 3)
+            return uid, int(idx), int(start), int(end)
+        uid, start, end = core.rsplit(".", 2)
+        if len(start) != 5 or len(end) != 5:
+            return None
+        return uid, None, int(start), int(end)
+    except ValueError:
+        return None
+
+
 def run_dir(case):
     import torch
     from pydrobert.torch import command_line
+    case = norm(case)
+    lay = layout(case)
     tmp = tempfile.mkdtemp(prefix="c10dir_")
     try:
         src, out = os.path.join(tmp, "in"), os.path.join(tmp, "out")
         write_dir(case, src)
-        args = [src, out, "--policy", case["policy"], "--window-type", case["wt"], "--lobe-size", str(case["lobe"]),
-                "--num-workers", "0", "--quiet", "--format-utt", "{utt_id}.{idx}.{start}.{end}"]
-        if not case["valid"]:
-            args += ["--pad-mode", "constant", "--pad-constant", str(PAD)]
-        if case["partial"]:
-            args.append("--partial-tokens")
-        if case["retain"]:
-            args.append("--retain-token-boundaries")
         with warnings.catch_warnings():
             warnings.simplefilter("ignore")
-            rc = command_line.chunk_torch_spect_data_dir(args)
-        obs = {"rc": rc if rc is None else int(rc), "listing": {}, "utts": {}}
+            rc = command_line.chunk_torch_spect_data_dir(command_args(case, src, out))
+        obs = {"rc": rc if rc is None else int(rc), "listing": {}, "utts": {}, "bad_names": [],
+               "out_entries": sorted(os.listdir(out)) if os.path.isdir(out) else None}
         for sub in ("feat", "ali", "ref"):
-            d = os.path.join(out, sub)
+            d = os.path.join(out, lay[sub])
             obs["listing"][sub] = sorted(os.listdir(d)) if os.path.isdir(d) else None
         for name in obs["listing"]["feat"] or []:
-            uid, idx, start, end = name[:-3].rsplit(".", 3)
-            ent = {"idx": int(idx), "start": int(start), "end": int(end)}
-            feat = torch.load(os.path.join(out, "feat", name))
+            parsed = parse_name(case, name)
+            if parsed is None:
+                obs["bad_names"].append(name)
+                continue
+            uid, idx, start, end = parsed
+            ent = {"idx": idx, "start": start, "end": end}
+            feat = torch.load(os.path.join(out, lay["feat"], name))
             ent["feat_shape"] = list(feat.shape)
             ent["feat"] = [[float(x) for x in row] for row in feat.tolist()]
             ent["feat_dtype"] = str(feat.dtype)
-            p = os.path.join(out, "ali", name)
+            p = os.path.join(out, lay["ali"], name)
             if os.path.exists(p):
                 a = torch.load(p)
                 ent["ali"] = a.tolist()
                 ent["ali_dtype"] = str(a.dtype)
-            p = os.path.join(out, "ref", name)
+            p = os.path.join(out, lay["ref"], name)
             if os.path.exists(p):
                 r = torch.load(p)
                 ent["ref"] = r.tolist()
                 ent["ref_shape"] = list(r.shape)
             obs["utts"].setdefault(uid, []).append(ent)
         for uid in obs["utts"]:
-            obs["utts"][uid].sort(key=lambda e: e["idx"])
+            obs["utts"][uid].sort(key=lambda e: (e["idx"] if e["idx"] is not None else 0, e["start"], e["end"]))
         nchunks = len(obs["listing"]["feat"] or [])
         if nchunks:
-            obs["valid_raw"] = validate(out)
+            obs["valid_raw"] = validate(out, case)
             # the same directory with every ref boundary moved by -2*start (what it would be without the
             # known += defect); only meaningful when boundaries are not retained
-            if not case["retain"]:
+            if not case["retain"] and case["opts"]["has_ref"]:
                 for name in obs["listing"]["ref"] or []:
-                    start = int(name[:-3].rsplit(".", 3)[2])
-                    p = os.path.join(out, "ref", name)
+                    parsed = parse_name(case, name)
+                    if parsed is None:
+                        continue
+                    start = parsed[2]
+                    p = os.path.join(out, lay["ref"], name)
                     r = torch.load(p)
                     if r.numel():
                         r = r.clone()
                         r[:, 1:] -= 2 * start
                         torch.save(r, p)
-                obs["valid_minus_2start"] = validate(out)
+                obs["valid_minus_2start"] = validate(out, case)
         return obs
     finally:
         shutil.rmtree(tmp, ignore_errors=True)
@@ -141,47 +292,101 @@ def model_request(case):
         "utts": [{"T": u["T"], "ali": u["ali"], "ref": u["ref"]} for u in case["utts"]]}}
 
 
+# ----------------------------------------------------------------------------- comparison / property
+def windows_of(case, ents):
+    """The windows written for one utterance: in chunk-index order when the names carry the index,
+    otherwise (default names: two equal windows share a name) the sorted set."""
+    if case["opts"]["format"] == "idx":
+        return [[e["start"], e["end"], 0] for e in ents]
+    return sorted({(e["start"], e["end"], 0) for e in ents})
+
+
+def windows_want(case, ws):
+    if case["opts"]["format"] == "idx":
+        return ws
+    return sorted({tuple(w) for w in ws})
+
+
 def compare(case, impl, model):
+    case = norm(case)
     if "error" in impl:
         return [f"command raised {impl['error']}: {impl.get('message')}"]
     out = []
     for u, m in zip(case["utts"], model["utts"]):
-        got = [[e["start"], e["end"], 0] for e in impl["utts"].get(u["id"], [])]
-        if m["model"] != got:
-            out.append(f"utterance {u['id']}: windows written {got}, model {m['model']}")
+        got = [list(w) for w in windows_of(case, impl["utts"].get(u["id"], []))]
+        want = [list(w) for w in windows_want(case, m["model"])] if isinstance(m["model"], list) else m["model"]
+        if want != got:
+            out.append(f"utterance {u['id']}: windows written {got}, model {want}")
     return out
 
 
+def pad_frame(case, t, T):
+    """Index of the source frame chunk position `t` must show, or None for the padding constant."""
+    if 0 <= t < T:
+        return t
+    if case["pad_mode"] == "replicate":
+        return min(max(t, 0), T - 1)
+    return None
+
+
 def predicate(case, impl, model, sig_plus):
+    case = norm(case)
     if "error" in impl:
         return [(f"chunk-torch-spect-data-dir raised {impl['error']}: {impl.get('message')}", None)]
     fails = []
+    o = case["opts"]
+    lay = layout(case)
     if impl["rc"]:
         fails.append((f"command returned {impl['rc']}", None))
     ls = impl["listing"]
-    if ls["feat"] is None or ls["ali"] != ls["feat"] or ls["ref"] != ls["feat"]:
-        fails.append((f"output sub-directories do not hold the same utterances: {ls}", None))
-        return fails
+    want_ls = {"feat": True, "ali": o["has_ali"], "ref": o["has_ref"]}
+    for sub in ("feat", "ali", "ref"):
+        if want_ls[sub] and (ls[sub] is None or ls[sub] != ls["feat"]):
+            fails.append((f"output sub-directories do not hold the same utterances: {ls}", None))
+            return fails
+        if not want_ls[sub] and ls[sub]:
+            fails.append((f"'{lay[sub]}/' written although the source has none: {ls[sub]}", None))
+    extra = [e for e in impl.get("out_entries") or [] if e not in (lay["feat"], lay["ali"], lay["ref"])]
+    if extra:
+        fails.append((f"unexpected entries in the output directory: {extra}", None))
+    if impl["bad_names"]:
+        fails.append((f"output names without the requested prefix/suffix/format: {impl['bad_names'][:4]}", None))
+    known_ids = {u["id"] for u in case["utts"]}
+    stray = sorted(set(impl["utts"]) - known_ids)
+    if stray:
+        fails.append((f"chunks of utterances that are not in the source: {stray}", None))
+    pad_value = 0.0 if case["pad_constant"] is None else case["pad_constant"]
     plus_seen, other_ref_mismatch = False, False
     for ui, (u, m) in enumerate(zip(case["utts"], model["utts"])):
         ents = impl["utts"].get(u["id"], [])
         spec = m["spec"]
-        got = [[e["start"], e["end"], 0] for e in ents]
-        if got != spec:
+        got = [list(w) for w in windows_of(case, ents)]
+        if got != [list(w) for w in windows_want(case, spec)]:
             fails.append((f"utterance {u['id']}: chunks written for windows {got}, the policy prescribes {spec}", None))
             continue
-        if [e["idx"] for e in ents] != list(range(len(ents))):
-            fails.append((f"utterance {u['id']}: chunk indices {[e['idx'] for e in ents]}", None))
+        if o["format"] == "idx":
+            if [e["idx"] for e in ents] != list(range(len(ents))):
+                fails.append((f"utterance {u['id']}: chunk indices {[e['idx'] for e in ents]}", None))
+            pairs = list(zip(ents, m["tokens"]))
+        else:
+            by_win = {}
+            for w, toks in zip(spec, m["tokens"]):
+                by_win.setdefault((w[0], w[1]), toks)
+            pairs = [(e, by_win[(e["start"], e["end"])]) for e in ents]
         T = u["T"]
-        for e, want_toks in zip(ents, m["tokens"]):
+        for e, want_toks in pairs:
             a, b = e["start"], e["end"]
-            want_feat = [[feat_value(ui, t, f) if 0 <= t < T else PAD for f in range(F)] for t in range(a, b)]
-            want_ali = [u["ali"][t] if 0 <= t < T else int(PAD) for t in range(a, b)]
+            src_t = [pad_frame(case, t, T) for t in range(a, b)]
+            want_feat = [[feat_value(ui, t, f) if t is not None else pad_value for f in range(F)] for t in src_t]
             if e["feat"] != want_feat or e["feat_dtype"] != "torch.float32":
                 fails.append((f"utterance {u['id']} window [{a},{b}): features are not the source restricted to the "
                               f"window: {e['feat']}", None))
-            if e.get("ali") != want_ali or e.get("ali_dtype") != "torch.int64":
-                fails.append((f"utterance {u['id']} window [{a},{b}): alignment {e.get('ali')} != {want_ali}", None))
+            if o["has_ali"]:
+                want_ali = [u["ali"][t] if t is not None else int(pad_value) for t in src_t]
+                if e.get("ali") != want_ali or e.get("ali_dtype") != "torch.int64":
+                    fails.append((f"utterance {u['id']} window [{a},{b}): alignment {e.get('ali')} != {want_ali}", None))
+            if not o["has_ref"]:
+                continue
             gref = e.get("ref")
             if gref is None or e["ref_shape"][1:] != [3]:
                 fails.append((f"utterance {u['id']} window [{a},{b}): reference chunk missing / shape {e.get('ref_shape')}",
@@ -195,8 +400,8 @@ def predicate(case, impl, model, sig_plus):
                                   f"slice-relative is {want_toks}", sig_plus))
                 else:
                     other_ref_mismatch = True
-                    fails.append((f"utterance {u['id']} window [{a},{b}): token chunk {gref}, specified {want_toks}",
-                                  None))
+                    fails.append((f"utterance {u['id']} window [{a},{b}) partial={case['partial']} "
+                                  f"retain={case['retain']}: token chunk {gref}, specified {want_toks}", None))
     # well-formedness of the produced directory (library validator). Partial matches may legitimately
     # stick out of the chunk and retained boundaries are absolute by request, so the clause is evaluated
     # for contained tokens with slice-relative boundaries only.
@@ -211,7 +416,37 @@ def predicate(case, impl, model, sig_plus):
     return fails[:8]
 
 
+# ----------------------------------------------------------------------------- evidence
+def tags(case, impl):
+    case = norm(case)
+    o = case["opts"]
+    t = ["dir", f"dir:{case['policy']}:{case['wt']}:{'valid' if case['valid'] else 'pad'}",
+         f"dir:{case['policy']}:partial={int(case['partial'])}:retain={int(case['retain'])}",
+         f"dir:flags:partial={int(case['partial'])}:retain={int(case['retain'])}:quiet={int(case['quiet'])}",
+         f"dir:lobe={case['lobe']}", f"dir:pad_mode={case['pad_mode']}"]
+    if case["pad_mode"] == "constant":
+        t.append(f"dir:pad_constant={'default' if case['pad_constant'] is None else case['pad_constant']}")
+    for k, v in o.items():
+        if v != DEFAULT_OPTS[k]:
+            t.append(f"dir:opt:{k}={v}")
+    if isinstance(impl, dict) and "utts" in impl:
+        straddle = nonzero_start = False
+        for u in case["utts"]:
+            for e in impl["utts"].get(u["id"], []):
+                a, b = e["start"], e["end"]
+                nonzero_start |= a != 0
+                for _, s, en in u["ref"]:
+                    if 0 <= s <= en and a < en and s < b and not (a <= s and en <= b):
+                        straddle = True
+        if o["has_ref"] and straddle:
+            t.append("dir:token_straddles_window_edge")
+        if nonzero_start:
+            t.append("dir:window_start_nonzero")
+    return t
+
+
 def shrink(case):
+    case = norm(case)
     if len(case["utts"]) > 1:
         for i in range(len(case["utts"])):
             c = dict(case)
@@ -222,6 +457,13 @@ def shrink(case):
             c = dict(case)
             c[k] = False
             yield c
+    if not case["quiet"]:
+        yield dict(case, quiet=True)
+    for k, v in case["opts"].items():
+        if v != DEFAULT_OPTS[k]:
+            yield dict(case, opts=dict(case["opts"], **{k: DEFAULT_OPTS[k]}))
+    if case["pad_mode"] == "replicate":
+        yield dict(case, pad_mode="constant", pad_constant=PAD)
     if case["lobe"] > 0:
         c = dict(case)
         c["lobe"] = case["lobe"] - 1
